@@ -26,7 +26,8 @@ RULE = (
     "(another generator run earlier in the same interpreter), cold vs warm process, cwd, absolute location of inputs, "
     "absolute location of outputs, relative vs absolute spelling, directory enumeration order, umask, environment "
     "(TZ, LANG, HOME), lookup directories via DSDL_INCLUDE_PATH in another order, mtime/mode of input files, machine history "
-    "(earlier processes of the same user with other options sharing TMPDIR, HOME and the cache directory). "
+    "(earlier processes of the same user with other options sharing TMPDIR, HOME, the cache directory or the output directory), "
+    "interpreter start options (-X ..., -B, -W). "
     "Distinct = digest of (language, options, set of perturbed dimensions with their values); non-trivial = the "
     "baseline run succeeded and at least one perturbed world was compared with it."
 )
@@ -43,7 +44,7 @@ ASSUMPTIONS = [
 
 DIMS = [
     "clock_start", "clock_step", "hash_seed", "aged_process", "cold_process", "cwd", "in_location", "out_location",
-    "spelling", "enum", "umask", "env", "lookup_via_env", "input_meta", "tpl_location", "machine_history",
+    "spelling", "enum", "umask", "env", "lookup_via_env", "input_meta", "tpl_location", "machine_history", "py_flags",
 ]  # fmt: skip
 T0 = 1750000000.0
 
@@ -154,7 +155,10 @@ def _perturb(r: Rng, dims: typing.List[str], worker_hash_seed: int) -> dict:
         elif d == "machine_history":
             # earlier runs by the same user on the same machine, in OTHER processes and with other options: whatever
             # they left in TMPDIR / HOME / the cache directory must not reach the bytes of the measured run
-            w[d] = r.choice([["whitespace"], ["config"], ["whitespace", "config"], ["other_lang", "whitespace"], ["same", "config"]])
+            w[d] = r.choice([["whitespace"], ["config"], ["whitespace", "config"], ["other_lang", "whitespace"], ["same", "config"], ["same_outdir_crlf"], ["same_outdir_crlf", "whitespace"]])
+        elif d == "py_flags":
+            # how the interpreter was started (debuggers, CI wrappers and packagers add -X options): not an input
+            w[d] = r.choice([["-X", "faulthandler"], ["-X", "dev"], ["-X", "utf8"], ["-B"], ["-X", "pycache_prefix=@SANDBOX@/pyc"], ["-X", "faulthandler", "-X", "tracemalloc=2"], ["-W", "ignore"]])
         elif d == "input_meta":
             w[d] = {"mtime": r.choice([0, 946684800, 4102444800]), "mode": r.choice([0o444, 0o644, 0o600])}
         else:
@@ -202,6 +206,9 @@ def classify_diff(lang: str, rel: str, a: bytes, b: bytes) -> str:
             ta, tb = a.decode("utf-8"), b.decode("utf-8")
         except UnicodeDecodeError:
             return "bytes"
+        if "\r\n" in ta and "\r\n" in tb and "\n" not in ta.replace("\r\n", "") and "\n" not in tb.replace("\r\n", ""):
+            # (an external line-ending normaliser may have run over both: the classification looks at LF text)
+            ta, tb = ta.replace("\r\n", "\n"), tb.replace("\r\n", "\n")
         ba, bb = _BLOB.findall(ta), _BLOB.findall(tb)
         if ba and len(ba) == len(bb) and _BLOB.sub(r"\1<blob>\3", ta) == _BLOB.sub(r"\1<blob>\3", tb):
             # the text outside the _MODEL_ constant is identical; now look inside the constant
@@ -359,6 +366,11 @@ def run_case(case: dict, ctx: dict) -> dict:
                 with open(cfg, "w", encoding="utf-8") as f:
                     f.write("nunavut.lang.%s:\n  stropping_prefix: zq\n  limit_empty_lines: 0\n  options:\n    target_endianness: little\n" % o["lang"])
                 po["configs"] = [cfg]
+            elif variant == "same_outdir_crlf":
+                # the same command earlier, with a line-ending normaliser as external program, into the SAME output
+                # directory: what it left there must not reach the bytes of the measured run
+                po["out_abs"] = None
+                po["pp_prog"] = "crlf"
             elif variant == "other_lang":
                 po["lang"] = "py" if o["lang"] != "py" else "c"
                 for k in ("templates", "support_templates", "std"):
@@ -367,12 +379,12 @@ def run_case(case: dict, ctx: dict) -> dict:
             bump("probes", "earlier_process_on_same_machine:%s" % ("ok" if nnvg.succeeded(prior) else "failed"))
         inv = world.invocation(o, **plan)
         locale_env = {k: v for k, v in env.items() if k in ("LC_ALL", "LANG", "LC_CTYPE", "PYTHONUTF8", "PYTHONCOERCECLOCALE", "PYTHONIOENCODING")}
-        if delta.get("hash_seed") is not None or delta.get("cold_process") or locale_env:
+        if delta.get("hash_seed") is not None or delta.get("cold_process") or locale_env or delta.get("py_flags"):
             hs = delta.get("hash_seed")
             if hs is None:
                 hs = worker_hs  # cold process, same hash seed value as this worker
             # locale and default encoding are decided when an interpreter starts: such worlds need a fresh one
-            res = proc.run_invocation_fresh(inv, hs, start_env=locale_env or None)
+            res = proc.run_invocation_fresh(inv, hs, start_env=locale_env or None, py_flags=[x.replace("@SANDBOX@", sandbox) for x in delta.get("py_flags") or []])
         else:
             res = proc.run_invocation(inv)
         bump("status", res["status"])
